@@ -126,7 +126,35 @@ func equalModulo(a, b protoreflect.Message, path string) string {
 		if ta != tb {
 			return fmt.Sprintf("%s: any type %q vs %q", path, ta, tb)
 		}
-		return equalModulo(pa, pb, path+".(payload)")
+		if d := equalModulo(pa, pb, path+".(payload)"); d != "" {
+			return d
+		}
+		// a j5 Any keeps the JSON text of its payload: the encoder embeds the stored j5_json verbatim
+		// (or the inner encoding when only proto bytes are stored) and the decoder keeps json.Compact
+		// of what it read, so the decoded j5_json is that text byte for byte, insignificant white
+		// space aside (member order, escapes and number spellings survive)
+		if a.Descriptor().FullName() == "j5.types.any.v1.Any" {
+			fs := a.Descriptor().Fields()
+			var embedded []byte
+			if a.Has(fs.ByName("j5_json")) {
+				embedded = a.Get(fs.ByName("j5_json")).Bytes()
+			} else {
+				o := encodeMsg(theCodec, pa)
+				if o.Kind != "ok" {
+					return fmt.Sprintf("%s: any payload does not encode: %s%s", path, o.Err, o.Panic)
+				}
+				embedded = o.Out
+			}
+			var want bytes.Buffer
+			if err := json.Compact(&want, embedded); err != nil {
+				return fmt.Sprintf("%s: any j5_json of the original is not JSON: %v", path, err)
+			}
+			got := b.Get(fs.ByName("j5_json")).Bytes()
+			if !bytes.Equal(want.Bytes(), got) {
+				return fmt.Sprintf("%s: any j5_json text %q vs %q", path, want.String(), string(got))
+			}
+		}
+		return ""
 	}
 	var diff string
 	fields := a.Descriptor().Fields()
@@ -425,14 +453,14 @@ func runC01(cfg *vh.Config) error {
 		g.fill(m, 1)
 		er.roundTrip("big", t, m, flats[t])
 	}
-	for i := 0; i < cfg.Scale(600, 20000); i++ {
+	for i := 0; i < cfg.Scale(600, 12000); i++ {
 		t := pick()
 		g := &msgGen{r: r, maxDepth: 2, fieldPct: vh.Pick(r, []int{3, 6}), maxEntries: 2, emptySubs: 30}
 		m := t.New()
 		g.fill(m, 1)
 		er.roundTrip("sparse", t, m, flats[t])
 	}
-	for i := 0; i < cfg.Scale(800, 30000); i++ {
+	for i := 0; i < cfg.Scale(800, 16000); i++ {
 		t := pick()
 		g := &msgGen{r: r, maxDepth: r.Range(1, 5), fieldPct: vh.Pick(r, []int{10, 20, 35, 60}), maxEntries: r.Range(1, 3), emptySubs: vh.Pick(r, []int{0, 10, 30})}
 		m := t.New()
@@ -441,7 +469,7 @@ func runC01(cfg *vh.Config) error {
 	}
 	// messages of the schemas generated for this run (compiled j5s packages, raw descriptors)
 	if gen := targets[nFixed:]; len(gen) > 0 {
-		for i := 0; i < cfg.Scale(300, 12000); i++ {
+		for i := 0; i < cfg.Scale(300, 6000); i++ {
 			t := vh.Pick(r, gen)
 			g := &msgGen{r: r, maxDepth: r.Range(1, 4), fieldPct: vh.Pick(r, []int{20, 40, 70}), maxEntries: r.Range(1, 3), emptySubs: vh.Pick(r, []int{0, 10, 30})}
 			m := t.New()
